@@ -46,6 +46,7 @@ type c03Image struct {
 	Content []int
 	Fast    bool
 	Err     string
+	Skip    string // the image could not be evaluated (harness / environment): not an observation
 }
 
 func c03Dump(n *vsNode) ([]int, error) {
@@ -96,11 +97,25 @@ func c03Donor(path string, j int) error {
 
 func c03Reopen(img *c03Image) {
 	n := vsNewNode(img.Dir, "n1")
-	defer n.ln.Close()
+	defer func() { n.ln.Close() }()
 	if err := n.openSingle(false); err != nil {
-		img.Err = "reopen: " + err.Error()
 		n.s.Close(true)
-		return
+		if !vsTransient(err) {
+			img.Err = "reopen: " + err.Error()
+			return
+		}
+		// the machine was too slow for the node to elect itself: try the same image once more
+		n.ln.Close()
+		n = vsNewNode(img.Dir, "n1")
+		if err := n.openSingle(false); err != nil {
+			n.s.Close(true)
+			if vsTransient(err) {
+				img.Skip = "reopen: " + err.Error()
+			} else {
+				img.Err = "reopen: " + err.Error()
+			}
+			return
+		}
 	}
 	defer n.s.Close(true)
 	img.Fast = n.s.numSnapshotsSkipped.Load() > 0
@@ -113,6 +128,10 @@ func c03Reopen(img *c03Image) {
 }
 
 func c03RunCase(in c03Input, base string, seq int) VCase {
+	return vsRetry(func(attempt int) VCase { return c03RunOnce(in, base, seq*2+attempt) })
+}
+
+func c03RunOnce(in c03Input, base string, seq int) VCase {
 	key := vJSON(in)
 	dir := filepath.Join(base, fmt.Sprintf("n%d", seq))
 	scratch := filepath.Join(base, fmt.Sprintf("s%d", seq))
@@ -146,6 +165,9 @@ func c03RunCase(in c03Input, base string, seq int) VCase {
 		return nil
 	}
 	fail := func(i int, op c03Op, err error) VCase {
+		if vsTransient(err) {
+			return VCase{Input: in, Key: key, Inconcl: fmt.Sprintf("step %d (%s): %v", i, op.Kind, err)}
+		}
 		return VCase{Input: in, Key: key, OracleFail: fmt.Sprintf("step %d (%s) failed: %v", i, op.Kind, err), Sig: "C03:step-error:" + op.Kind}
 	}
 	for i, op := range in.Ops {
@@ -315,6 +337,10 @@ func c03RunCase(in c03Input, base string, seq int) VCase {
 		tags["crash-after-"+img.After] = true
 		if img.Fresh {
 			nontrivial = true
+		}
+		if img.Skip != "" {
+			tags["image-not-evaluated"] = true
+			continue
 		}
 		if img.Err != "" {
 			if failMsg == "" {
